@@ -2,7 +2,7 @@
    (content tables, raw modules lowered by the regenerated dispatch tables, ...) and hands everything else to
    [run_C01] of Model/C01_visitor.v. *)
 From Coq Require Import List ZArith String Ascii Bool Arith.
-From Verif Require Import Lib.Sexp Model.C01_base Gen.C01_tables Gen.C01_dispatch Model.C01_visitor Model.C01_content Model.C01_raw Model.C01_layout Model.C01_resolve Model.C01_ext.
+From Verif Require Import Lib.Sexp Model.C01_base Gen.C01_tables Gen.C01_dispatch Model.C01_visitor Model.C01_content Model.C01_raw Model.C01_layout Model.C01_dedent Model.C01_resolve Model.C01_ext.
 Import ListNotations.
 Open Scope string_scope.
 Open Scope list_scope.
@@ -47,7 +47,7 @@ Definition run_C01_all (s : sexp) : sexp :=
       | None => bad_input end
   | SList [SStr "dedent"; ls] =>
       (* Object.source of an object whose lines are ls *)
-      match as_list_of as_str ls with Some l => SList (map SStr (dedent l)) | None => bad_input end
+      match as_list_of as_str ls with Some l => SList (map SStr (dedent_ws l)) | None => bad_input end
   | SList [SStr "ext-history"; c0; ops] =>
       (* one extension container: initial extensions, then registrations and visits (raw modules); per visit, what each
          extension that ever appears receives (theorem C01_history_announces_to_registered) *)
